@@ -7,7 +7,8 @@ import PV.C09.Model
     point's own result: module/expression/interactive node, module body, the single statement,
     the expression, the identifier of a `Name`, the value of a `Constant`, the payload of variant
     `i` of `Stmt`/`Expr` — "or report InvalidToken at the node start" when the variant is another one.
-  * translation by a start offset on results (`shiftRes`, `shiftMod`, `shiftOut`).
+  * translation by a start offset on results (`shiftRes`, `shiftMod`, `shiftOut`), the hypotheses of the
+    translation theorems (`ShiftEnv`, `HeadlessMarkerIrrelevant`, `StartsNotBefore`, `StmtNonEmpty`).
   * the mode names (`modeNameOk`).
 -/
 namespace PV.C09.Spec
@@ -136,25 +137,65 @@ def _root_.PV.C09.Ty.usesStmt : Ty → Bool
   | .typed p => decide (p.parseVia = .stmt)
   | _ => false
 
-/-- domain predicate of the translation theorem: the text has at least one statement (only asked of
-    the implementations that go through `Stmt`, whose zero-statement error is pinned to offset 0) -/
+/-- mode that `T::parse_tokens` hands to `parse_filtered_tokens` at the end of ITS delegation chain
+    (for a well-formed table row the same as `Ty.lexMode` and `Ty.target.mode`) -/
+def _root_.PV.C09.Ty.parseMode : Ty → Mode
+  | .modModule => .module
+  | .modExpression => .expression
+  | .modInteractive => .interactive
+  | .suite => .module
+  | .stmt => .module
+  | .expr => .expression
+  | .identifier => .expression
+  | .constant => .expression
+  | .typed p => match p.parseVia with
+    | .stmt => .module
+    | .expr => .expression
+
+/-- domain predicate of the translation theorem for `T::parse_tokens` (NOT needed for
+    `T::parse_starts_at` any more): the tokens contain at least one statement.  Only asked of the
+    implementations that go through `Stmt`, whose zero-statement error sits at `TextSize::default()`
+    because `parse_tokens` is not told the start offset. -/
 def StmtNonEmpty (env : Env σ) (ty : Ty) (toks : List σ.T) : Prop :=
   ty.usesStmt = true → ∀ m, parseFiltered env .module toks = .ok (.module m) → m.body ≠ []
 
 /-- hypotheses under which translation can be discussed at all: the lexer threads the start offset
     additively (`PV.C09.lex_shift`, proved on the lexer model), the LALRPOP parser computes every
-    position from the token ranges it is given, the marker moves like a token, trivia stay trivia -/
+    position from the token ranges it is given, the marker moves like a token, trivia stay trivia,
+    a token's start moves with the token (a lexical-error item has none) -/
 structure ShiftEnv (env : Env σ) (sh : Shift σ) (k : Nat) : Prop where
   lex : ∀ m src, env.lexTop m k src = (env.lexTop m 0 src).map (sh.tok k)
   parse : ∀ m toks, env.parseTop m (toks.map (sh.tok k)) = shiftRes k (shiftMod sh k) (env.parseTop m toks)
   marker : ∀ m a b, sh.tok k (env.marker m a b) = env.marker m (a + k) (b + k)
   trivia : ∀ t, env.isTrivia (sh.tok k t) = env.isTrivia t
+  tokStart : ∀ t, env.tokStart (sh.tok k t) = (env.tokStart t).map (· + k)
 
-/-- the parse result does not depend on the range given to the start marker.  True of the real
-    parser only without `all-nodes-with-ranges` and only when at least one token follows the marker
-    (the `Mod*` range and the location of an `UnrecognizedEof` right after the marker use it). -/
-def MarkerIrrelevant (env : Env σ) : Prop :=
-  ∀ m a b toks, env.parseTop m (env.marker m a b :: toks) = env.parseTop m (env.marker m 0 0 :: toks)
+/-- a (filtered) stream from which `parse_filtered_tokens` cannot read a position for the start
+    marker: it is empty or begins with a lexical error.  The marker then sits at `0..0`. -/
+def Headless (env : Env σ) (toks : List σ.T) : Prop :=
+  match toks with
+  | [] => True
+  | t :: _ => env.tokStart t = none
+
+instance (env : Env σ) (toks : List σ.T) : Decidable (Headless env toks) := by
+  unfold Headless; split <;> infer_instance
+
+/-- What is still asked of the parser about the marker: in front of a stream that gives the marker no
+    position, moving the marker from `0..0` to `k..k` changes at most an error offset below `k`
+    (which `not_before` lifts to `k`).  True of the real parser without `all-nodes-with-ranges`
+    (empty stream in expression mode: `Eof` at the marker's end; a leading lexical error is reported at
+    its own location); with `all-nodes-with-ranges` the `Mod*` node of a token-less text has the
+    marker's range `0..0`, which is the remaining listed finding. -/
+def HeadlessMarkerIrrelevant (env : Env σ) (k : Nat) : Prop :=
+  ∀ m toks, Headless env toks →
+    notBefore k (env.parseTop m (env.marker m k k :: toks)) =
+    notBefore k (env.parseTop m (env.marker m 0 0 :: toks))
+
+/-- positions of the nodes that the typed parsers report `InvalidToken` at are not before the start
+    offset (true of the real code: the lexer starts counting at `k`) -/
+def StartsNotBefore (v : View σ) (k : Nat) (top : Res (Mod σ)) : Prop :=
+  (∀ m, top = .ok (.expression m) → k ≤ v.exprStart m.body) ∧
+  (∀ m s, top = .ok (.module m) → m.body = [s] → k ≤ v.stmtStart s)
 
 /-! ### mode names
 
